@@ -206,6 +206,12 @@ func FirstCalls() []fw.Call {
 
 func Run(r *fw.Run) {
 	defer fw.FirstCallOrders(r, r.ID, FirstCalls(), nil)
+	// the process's local time zone is part of the environment: nothing here may depend on it. The whole
+	// check runs with a local zone that is far from UTC and not a whole number of hours.
+	oldLocal := time.Local
+	time.Local = time.FixedZone("VerifLocal", -(7*3600 + 1800))
+	defer func() { time.Local = oldLocal }()
+	r.Bounds["process_local_zone"] = "UTC-07:30 (time.Local is set for the run)"
 	bs := bases(r.Thorough())
 	ts := times()
 	r.Bounds["bases"] = len(bs)
@@ -432,6 +438,9 @@ func Run(r *fw.Run) {
 }
 
 func Replay(r *fw.Run, raw json.RawMessage) {
+	oldLocal := time.Local
+	time.Local = time.FixedZone("VerifLocal", -(7*3600 + 1800)) // as in Run
+	defer func() { time.Local = oldLocal }()
 	var c caseT
 	json.Unmarshal(raw, &c)
 	t, err := time.Parse(time.RFC3339Nano, c.Time)
